@@ -172,7 +172,7 @@ func (sb *sandbox) rebuild() {
 	_ = os.Chdir("/")
 	makeRemovable(sb.R)
 	must(os.RemoveAll(sb.R))
-	for _, d := range []string{"out", "out2", "out-evil", "out.bak", "cwd", "tmp", "in", "tree", "outer/out"} {
+	for _, d := range []string{"out", "out2", "out-evil", "out.bak", "cwd", "tmp", "in/emptyroot", "tree", "outer/out"} {
 		must(os.MkdirAll(sb.dir(d), 0o755))
 	}
 	// decoys named like the temporary names the code uses
